@@ -190,7 +190,19 @@ class OptimizerGeneric:
                                        bounds=bounds,
                                        options=options,
                                        tol=tol)
+        self._apply_solution(result.x)
         return result
+
+    def _apply_solution(self, x):
+        """Leave the lens in the state of the returned solution.
+
+        The last point evaluated by an optimiser is in general not the
+        returned one (finite-difference steps, population members, worker
+        processes), so the solution is applied explicitly.
+        """
+        for idvar, var in enumerate(self.problem.variables):
+            var.update(x[idvar])
+        self.problem.update_optics()
 
     def undo(self):
         """
@@ -283,6 +295,7 @@ class LeastSquares(OptimizerGeneric):
                                             max_nfev=maxiter,
                                             verbose=verbose,
                                             ftol=tol)
+        self._apply_solution(result.x)
         return result
 
 
@@ -325,6 +338,7 @@ class DualAnnealing(OptimizerGeneric):
                                              bounds=bounds,
                                              maxiter=maxiter,
                                              x0=x0)
+        self._apply_solution(result.x)
         return result
 
 
@@ -387,4 +401,5 @@ class DifferentialEvolution(OptimizerGeneric):
                                                      disp=disp,
                                                      updating=updating,
                                                      workers=workers)
+        self._apply_solution(result.x)
         return result
